@@ -157,6 +157,7 @@ func (fx *FnExec) staticCall(st *State, fn *ssa.Function, args, bindings []*Term
 		if !hasLoop(fn) && fx.depth < 6 && len(fn.Blocks) <= 40 {
 			return fx.inline(st, fn, nil, args, bindings, p)
 		}
+		fx.opaqueTargets = []*ssa.Function{fn}
 		return fx.opaqueCall(st, fn.Signature, full)
 	}
 	// external, no contract: if it receives references it may change what they reach
@@ -293,10 +294,7 @@ func (fx *FnExec) applyContract(st *State, fn *ssa.Function, con *Contract, args
 		fx.oblig(st, "call-pre", fmt.Sprintf("%s.%d", fn.Name(), i), p, envPre.boolExpr(r.Expr))
 	}
 	// allocation may advance
-	oldA := fx.heapGet(st, "alloc", SInt)
-	newA := fx.c.Fresh("alloc", SInt)
-	st.heap["alloc"] = newA
-	fx.c.Assume(Implies(st.guard, Ge(newA, oldA)))
+	fx.advanceAlloc(st)
 	var res []*Term
 	sig := fn.Signature
 	for i := 0; i < sig.Results().Len(); i++ {
@@ -307,10 +305,14 @@ func (fx *FnExec) applyContract(st *State, fn *ssa.Function, con *Contract, args
 	}
 	// frame: havoc assigns (which may name the results, e.g. ghost state of a fresh object)
 	envAssign := fx.contractEnv(fn, con, args, pre, pre, res)
-	fx.havocAssigns(st, envAssign, con.Common.Assigns, fn)
+	locs := fx.havocAssigns(st, envAssign, con.Common.Assigns, fn, p)
 	envPost := fx.contractEnv(fn, con, args, pre, st, res)
 	for _, en := range con.Common.Ensures {
 		fx.c.Assume(Implies(st.guard, envPost.boolExpr(en.Expr)))
+	}
+	// the callee's frame must lie within the caller's (freshness of results is known by now)
+	for _, l := range locs {
+		fx.calleeFrame(st, l, p)
 	}
 	for _, b := range con.Behs {
 		if len(b.Ghosts) > 0 {
@@ -328,9 +330,17 @@ func (fx *FnExec) applyContract(st *State, fn *ssa.Function, con *Contract, args
 	return res
 }
 
-func (fx *FnExec) havocAssigns(st *State, envPre *SpecEnv, assigns []*Clause, fn *ssa.Function) {
+func (fx *FnExec) havocAssigns(st *State, envPre *SpecEnv, assigns []*Clause, fn *ssa.Function, p token.Pos) (locs []*assignLoc) {
 	for _, a := range assigns {
+		if a.Expr.Kind == "ident" && a.Expr.Name == "caches" {
+			// assigns caches: the lazily filled Typ / Successors fields (of any object) may be written
+			locs = append(locs, &assignLoc{whole: "caches"})
+			fx.opaqueTargets = []*ssa.Function{}
+			fx.observerHavoc(st)
+			continue
+		}
 		loc := envPre.assignLoc(a.Expr)
+		locs = append(locs, loc)
 		switch {
 		case loc.whole != "" && loc.si != nil:
 			s := ArrSort(SInt, fx.fieldSort(loc.si, loc.fidx))
@@ -357,7 +367,82 @@ func (fx *FnExec) havocAssigns(st *State, envPre *SpecEnv, assigns []*Clause, fn
 			fx.fail("unsupported assigns location in contract of %s", fn.Name())
 		}
 	}
+	return locs
 }
+
+// calleeFrame: what a callee's contract allows it to assign must lie within the
+// assigns clause of the function under verification (or in memory allocated by it).
+func (fx *FnExec) calleeFrame(st *State, loc *assignLoc, p token.Pos) {
+	if !fx.checkAssigns || loc == nil {
+		return
+	}
+	top := fx.root()
+	if top.beh == nil {
+		return
+	}
+	env := top.specEnvEntry()
+	var allowed []*Term
+	what := loc.whole
+	switch {
+	case loc.whole == "caches":
+	case loc.whole != "" && loc.si != nil:
+	case loc.whole != "":
+		if loc.ref != nil {
+			// ghost state of an object allocated in this call is invisible to the caller
+			what += "[key]"
+			allowed = append(allowed, fx.isFresh(loc.ref))
+		}
+	case loc.si != nil:
+		allowed = append(allowed, fx.isFresh(loc.obj))
+		what = fieldHeapName(loc.si, loc.fidx)
+	case loc.refKind == "pcell":
+		allowed = append(allowed, fx.isFresh(loc.ref))
+		what = "cell"
+	default:
+		return
+	}
+	for _, a := range top.beh.Assigns {
+		if a.Expr.Kind == "ident" && a.Expr.Name == "caches" {
+			if loc.whole == "caches" || (loc.si != nil && cacheFieldName(loc.si.st.Field(loc.fidx).Name())) {
+				allowed = append(allowed, True)
+			}
+			continue
+		}
+		al := env.assignLoc(a.Expr)
+		if al == nil {
+			continue
+		}
+		switch {
+		case loc.whole == "caches":
+		case loc.whole != "" && loc.si != nil:
+			if al.whole == loc.whole {
+				allowed = append(allowed, True)
+			}
+		case loc.whole != "":
+			if al.whole == loc.whole {
+				if al.ref == nil {
+					allowed = append(allowed, True)
+				} else if loc.ref != nil {
+					allowed = append(allowed, Eq(al.ref, loc.ref))
+				}
+			}
+		case loc.si != nil:
+			if al.whole != "" && al.whole == fieldHeapName(loc.si, loc.fidx) {
+				allowed = append(allowed, True)
+			}
+			if al.whole == "" && al.si != nil && al.si.id == loc.si.id && al.fidx == loc.fidx {
+				allowed = append(allowed, Eq(al.obj, loc.obj))
+			}
+		case loc.refKind == "pcell":
+			if al.refKind == "pcell" && al.ref != nil {
+				allowed = append(allowed, Eq(al.ref, loc.ref))
+			}
+		}
+	}
+	fx.oblig(st, "assigns", "callee:"+what, p, Or(allowed...))
+}
+
+func cacheFieldName(n string) bool { return n == "Typ" || n == "Successors" }
 
 // ---------------------------------------------------------------------------
 // interface method calls
@@ -395,6 +480,10 @@ func (fx *FnExec) invoke(st *State, cc *ssa.CallCommon, recv *Term, args []*Term
 	if con := fx.ifaceContract(cc); con != nil {
 		return fx.applyIfaceContract(st, con, cc, recv, args, p)
 	}
+	fx.opaqueTargets = fx.e.dynamicTargets(cc)
+	if len(fx.opaqueTargets) == 0 {
+		fx.opaqueTargets = nil
+	}
 	return fx.opaqueCall(st, cc.Signature(), "dynamic "+ifaceKey(cc))
 }
 
@@ -428,7 +517,7 @@ func (fx *FnExec) applyIfaceContract(st *State, con *Contract, cc *ssa.CallCommo
 	for i, r := range con.Common.Requires {
 		fx.oblig(st, "call-pre", fmt.Sprintf("%s.%d", cc.Method.Name(), i), p, envPre.boolExpr(r.Expr))
 	}
-	fx.havocAssigns(st, envPre, con.Common.Assigns, nil)
+	locs := fx.havocAssigns(st, envPre, con.Common.Assigns, nil, p)
 	var res []*Term
 	for i := 0; i < sig.Results().Len(); i++ {
 		rt := sig.Results().At(i).Type()
@@ -439,6 +528,9 @@ func (fx *FnExec) applyIfaceContract(st *State, con *Contract, cc *ssa.CallCommo
 	envPost := mk(st, res)
 	for _, en := range con.Common.Ensures {
 		fx.c.Assume(Implies(st.guard, envPost.boolExpr(en.Expr)))
+	}
+	for _, l := range locs {
+		fx.calleeFrame(st, l, p)
 	}
 	return res
 }
@@ -930,6 +1022,10 @@ func (fx *FnExec) callMods(ci ssa.CallInstruction, ms *modSet) {
 	if cc.IsInvoke() {
 		if con := fx.ifaceContract(cc); con != nil {
 			for _, a := range con.Common.Assigns {
+				if a.Expr.Kind == "ident" && a.Expr.Name == "caches" {
+					ms.caches = true
+					continue
+				}
 				// ghost state of the receiver: the whole ghost component may change
 				if a.Expr.Kind == "call" && a.Expr.Name == "ghost" {
 					if sf := fx.e.findSpec(con.Pkg, a.Expr.Args[0].String()); sf != nil && sf.Ghost {
@@ -1010,6 +1106,10 @@ func (fx *FnExec) funcMods(fn *ssa.Function, ms *modSet, depth int) {
 			env.vars[p.Name()] = specVal{fx.c.Const("modp_"+sanitize(fn.Name())+"_"+p.Name()+"_"+sanitize(string(fx.e.sortOf(p.Type()))), fx.e.sortOf(p.Type())), p.Type()}
 		}
 		for _, a := range con.Common.Assigns {
+			if a.Expr.Kind == "ident" && a.Expr.Name == "caches" {
+				ms.caches = true
+				continue
+			}
 			// a captured variable of the callee: the corresponding heap-allocated local of this function
 			if a.Expr.Kind == "ident" {
 				handled := false
@@ -1078,9 +1178,7 @@ func (fx *FnExec) funcMods(fn *ssa.Function, ms *modSet, depth int) {
 			case ssa.CallInstruction:
 				cc := x.Common()
 				if cc.IsInvoke() {
-					if fx.ifaceContract(cc) == nil {
-						ms.opaque = true
-					}
+					fx.callMods(x, ms)
 					continue
 				}
 				switch callee := cc.Value.(type) {
@@ -1225,7 +1323,48 @@ func observerCallee(name string) bool {
 
 var idFieldRe = regexp.MustCompile(`^F_.*_(Typ|Successors|LocalID|GlobalID|MetadataID)$`)
 
+// reachesIDWrites: some function reachable from the targets is an ID setter (SetID/SetName).
+var idWriteCache = map[*ssa.Function]bool{}
+
+func (e *Engine) reachesIDWrites(targets []*ssa.Function) bool {
+	if targets == nil {
+		return true
+	}
+	for _, t := range targets {
+		if v, ok := idWriteCache[t]; ok {
+			if v {
+				return true
+			}
+			continue
+		}
+		seen := map[*ssa.Function]bool{t: true}
+		work := []*ssa.Function{t}
+		found := false
+		for len(work) > 0 && !found {
+			f := work[0]
+			work = work[1:]
+			if f.Name() == "SetID" || f.Name() == "SetName" {
+				found = true
+				break
+			}
+			for _, c := range e.callees(f) {
+				if c != nil && !seen[c] && fnInRepo(c) {
+					seen[c] = true
+					work = append(work, c)
+				}
+			}
+		}
+		idWriteCache[t] = found
+		if found {
+			return true
+		}
+	}
+	return false
+}
+
 func (fx *FnExec) observerHavoc(st *State) {
+	writesIDs := fx.e.reachesIDWrites(fx.opaqueTargets)
+	fx.opaqueTargets = nil
 	var names []string
 	for k := range st.heap {
 		names = append(names, k)
@@ -1246,19 +1385,30 @@ func (fx *FnExec) observerHavoc(st *State) {
 	}
 	for _, k := range names {
 		old := st.heap[k]
+		isID := strings.HasSuffix(k, "ID")
 		switch {
-		case idFieldRe.MatchString(k):
+		case idFieldRe.MatchString(k) && (writesIDs || !isID):
 			st.heap[k] = fx.c.Fresh("obs_"+k, old.S)
-		case strings.HasPrefix(k, "G_") && !keep[k] && !strings.HasPrefix(k, "G_visited"):
+		case strings.HasPrefix(k, "G_") && !keep[k] && !strings.HasPrefix(k, "G_visited") && writesIDs:
 			st.heap[k] = fx.c.Fresh("obs_"+k, old.S)
 		}
 	}
 	// cache / ID components not read so far must not be identified with their earlier value either
-	st.obsEpoch++
+	if writesIDs {
+		st.obsEpoch++
+	} else {
+		st.cacheEpoch++
+	}
+	fx.advanceAlloc(st)
+}
+
+// advanceAlloc: a callee may have allocated; the allocation counter moves on by
+// an unknown non-negative amount.
+func (fx *FnExec) advanceAlloc(st *State) {
 	oldA := fx.heapGet(st, "alloc", SInt)
-	newA := fx.c.Fresh("alloc", SInt)
-	st.heap["alloc"] = newA
-	fx.c.Assume(Implies(st.guard, Ge(newA, oldA)))
+	d := fx.c.Fresh("adv", SInt)
+	fx.c.Assume(Ge(d, IntLit(0)))
+	st.heap["alloc"] = App("+", SInt, oldA, d)
 }
 
 func (fx *FnExec) opaqueCall(st *State, sig *types.Signature, name string) []*Term {
@@ -1337,7 +1487,6 @@ func (fx *FnExec) havocHeap(st *State) {
 		st.heap[k] = fx.c.Name("oqp_"+k, nv)
 	}
 	st.epoch = epoch
-	newA := fx.c.Fresh("alloc", SInt)
-	st.heap["alloc"] = newA
-	fx.c.Assume(Implies(st.guard, Ge(newA, oldA)))
+	st.heap["alloc"] = oldA
+	fx.advanceAlloc(st)
 }
